@@ -2,6 +2,8 @@
 EXTENDS Server
 Cn4 == {1, 2, 3, 4}
 K4 == [c \in Cn4 |-> IF c <= 2 THEN "http" ELSE "ws"]
+CnW2 == {1, 2}
+KW2 == [c \in CnW2 |-> "ws"]
 NoCalls == {}
 NoConnOf == [q \in {} |-> 1]
 Cn2 == {1, 2}
